@@ -138,6 +138,9 @@ package config
 //@     && out.WaitForSynchronization == !(in.WaitForSynchronization == "false" && in.Queue != "")
 //@     && out.Monitor != nil && out.Monitor.KeepFullObjectsInMemory == out.KeepFullObjectsInMemory
 //@     && out.Monitor.Kind == in.Kind && out.Monitor.ApiVersion == in.ApiVersion && out.Monitor.JqFilter == in.JqFilter
+//@     && (in.ExecuteHookOnEvents != nil ==> sameseq(out.Monitor.EventTypes, in.ExecuteHookOnEvents))
+//@     && (in.ExecuteHookOnEvents == nil && in.WatchEventTypes != nil ==> sameseq(out.Monitor.EventTypes, in.WatchEventTypes))
+//@     && (in.ExecuteHookOnEvents == nil && in.WatchEventTypes == nil ==> len(out.Monitor.EventTypes) == 3 && out.Monitor.EventTypes[0] == kemtypes.WatchEventAdded && out.Monitor.EventTypes[1] == kemtypes.WatchEventModified && out.Monitor.EventTypes[2] == kemtypes.WatchEventDeleted)
 
 //@ pred K8sAll(outs []htypes.OnKubernetesEventConfig, ins []OnKubernetesEventConfigV1) := len(outs) == len(ins) && forall(i, 0, len(outs), K8sOK(outs[i], ins[i]))
 
